@@ -159,7 +159,8 @@ GEN = os.path.join(LEAN, "VerifModel", "Gen")
 PINNED = os.path.join(LEAN, "pinned_gen")
 GEN_FILES = {"cont.": "Cont.lean", "cmp.": "Cmp.lean", "det.": "Det.lean", "clean.": "Clean.lean",
              "opt": "OptionTable.lean", "appearance.": "Appearance.lean", "prob.": "Prob.lean",
-             "dispatch.": "ClassTable.lean", "wiring.": "PlotWiring.lean"}
+             "dispatch.": "ClassTable.lean", "wiring.": "PlotWiring.lean",
+             "axis.": "Axis.lean"}
 
 
 def gen_files_for(prefixes):
